@@ -352,10 +352,18 @@ def alphabetFromString (s : Seq) : Nat :=
   else if l == ([112, 114, 111, 116, 101, 105, 110] : Seq) || l == ([97, 97] : Seq) then AMINOACIDS
   else UNKNOWN
 
-def parseR (f : Facts) (o : POpts) (bs : Seq) : R Aln := do
-  let (t, r) := sIW bs
-  if t.kind != .nexus then .error .error
-  let top ← topLoop f (r.length + 3) r {}
+/-- one step of the loop that fills the alignment: emptiness (if repaired) and `nchar` tests, character
+translation, `AddSequence` -/
+def addRow (f : Facts) (d : Data) (b : Bag) (r : XRow) : R Bag :=
+  if f.rejectsEmptyRows && r.2.isEmpty then .error .error
+  else if (r.2.length : Int) != d.nchar && d.nchar != -1 then .error .error
+  else
+    match b.add r.1 (repl d.matchchar POINT (repl d.missing OTHER (repl d.gap GAP r.2))) with
+    | none => .error .error
+    | some b' => pure b'
+
+/-- the end of `Parse`, after the top-level loop -/
+def build (f : Facts) (o : POpts) (top : Top) : R Aln := do
   let nlabels : Int := match top.taxlabels with | some l => l.length | none => 0
   if top.taxantax != -1 && top.taxantax != nlabels then .error .error
   let d ← match top.data with
@@ -364,13 +372,7 @@ def parseR (f : Facts) (o : POpts) (bs : Seq) : R Aln := do
   if d.rows.isEmpty then .error .error
   if (d.rows.length : Int) != d.ntax && d.ntax != -1 then .error .error
   -- rows are added one by one; the first failing test of the loop ends the parse
-  let bag ← d.rows.foldlM (fun (b : Bag) (r : XRow) => do
-      if f.rejectsEmptyRows && r.2.isEmpty then .error .error
-      if (r.2.length : Int) != d.nchar && d.nchar != -1 then .error .error
-      let q := repl d.matchchar POINT (repl d.missing OTHER (repl d.gap GAP r.2))
-      match b.add r.1 q with
-      | none => .error .error
-      | some b' => pure b') ({ ignore := normIgnore o.ignore } : Bag)
+  let bag ← d.rows.foldlM (addRow f d) ({ ignore := normIgnore o.ignore } : Bag)
   match top.taxlabels with
   | some ls =>
     if !(bag.rows.all fun r => ls.contains r.1) then .error .error
@@ -382,6 +384,12 @@ def parseR (f : Facts) (o : POpts) (bs : Seq) : R Aln := do
   match bag.finish alp with
   | none => .error .error
   | some a => pure a
+
+def parseR (f : Facts) (o : POpts) (bs : Seq) : R Aln := do
+  let (t, r) := sIW bs
+  if t.kind != .nexus then .error .error
+  let top ← topLoop f (r.length + 3) r {}
+  build f o top
 
 def toOutcome {α} : R α → Outcome α
   | .ok a => .ok a
